@@ -251,8 +251,28 @@ def random_ops(rng, tier):
     return ops
 
 
+def long_ops(rng, tier):
+    """many frames through one reader / writer: counters that only matter after dozens or hundreds of frames"""
+    ops = []
+    for n in (31, 32, 33, 64, 65, 100, 128, 129, 255, 256, 257, 300) * (2 if tier == "quick" else 10):
+        vs = [F.rand_val(rng, rng.choice([5, 5, 40])) for _ in range(n)]
+        ps = [F.payload(v) for v in vs]
+        st = F.frames(ps)
+        ptag = "/".join(gen.hexb(p) for p in ps)
+        ml = max(len(p) for p in ps)
+        parts = F.rand_composition(rng, len(st), rng.choice([1, 3, 7, 64, 100000]))
+        sc = with_intr(parts, [rng.randint(0, len(parts)) for _ in range(rng.randint(0, 8))])
+        ops.append(f"fread {ml} {len(ps) + 2} {gen.hexb(st)} {F.script_tok(sc)} #k=rand #p={ptag}")
+        ws = [v if rng.random() < 0.97 else ("x", gen.rand_bytes(rng, 2)) for v in vs]
+        evs = [rng.choice([1, 1, 2, 3, 5, 8, 40, 1000, "i"]) for _ in range(rng.randint(0, 6 * n))]
+        ops.append(f"fwrite {ml} {F.vals_tok(ws)} {F.script_tok(evs)} #k=wr")
+    return ops
+
+
 def mk(name, ops, rule):
-    s = Stream(name, "hio", ops, judge=judge, rule=rule,
+    if name != "replay":
+        ops = F.ctor_expand(ops)      # every 4th scenario once more through with_buffer(..) with some buffer
+    s = Stream(name, "hio", ops, model_ops=[F.ctor_plain(o)[0] for o in ops], judge=F.ctor_judge(judge), rule=rule,
                nontrivial=lambda op, impl: "some:" in impl or "ok:" in impl or "err:" in impl)
     s.shrinkable = False
     return s
@@ -266,6 +286,7 @@ def streams(rng, tier):
         mk("reader-maxlen", maxlen_ops(rng, tier), "max_len around the frame size, hostile prefixes; oracle: err:len with buffer untouched, peak allocation request bounded"),
         mk("writer", writer_ops(rng, tier), "short writes + Interrupted, encode failures, max_len; oracle: exact frame bytes and return values"),
         mk("random", random_ops(rng, tier), "seeded random longer scenarios; benign ones judged by the oracle, the rest against the model"),
+        mk("long-streams", long_ops(rng, tier), "31..300 frames through one reader and one writer under chunking and Interrupted; oracle: every value once, in order / exact frame bytes"),
     ]
 
 
